@@ -68,6 +68,10 @@ func loadAll() (*Prog, error) {
 			files = append(files, verifDir()+"/spec/"+e.Name())
 		}
 	}
+	if extra := os.Getenv("GOVC_EXTRA"); extra != "" {
+		// draft contracts under development (never set by registered checks)
+		files = append(files, strings.Split(extra, ":")...)
+	}
 	var have []string
 	for _, f := range files {
 		if _, err := os.Stat(f); err == nil {
